@@ -16,7 +16,14 @@ pub enum Class {
 }
 
 pub fn real_parse(input: &str) -> Result<Result<Asm, ParserError>, mc::PanicInfo> {
-    mc::catch(|| AsmParser::parse(input))
+    mc::catch(|| {
+        let r = AsmParser::parse(input);
+        // an error must also be printable (the CLI and the TUI show it) without a panic
+        if let Err(e) = &r {
+            let _ = format!("{}", e);
+        }
+        r
+    })
 }
 
 /// Judge one input. None = agreement.
